@@ -96,15 +96,18 @@ CLAIMED['C15'] = dict(
 
 CLAIMED['C14'] = dict(
     category='other',
-    text=('Abstract execution of the hunk parser over every list shape the loop bound distinguishes (empty, 1..2 (thorough: 3) '
-          'abstract lines x every line class x ignore_garbage): definite assignment of every local; the escape set is '
-          '{MalformedHunkError} (explicit raises exact, sink table for int()/group()/indexing); every MalformedHunkError names '
-          'the current line and number; the marker branch is counter-free; None-sentinels that may hold index 0 are never '
-          'tested by truthiness; the processed-line count equals the number of lines examined.'),
-    note=('Hunk geometry (start lines, counts, context lines) is arithmetic over line contents and is NOT decided. Loops are '
-          'explored up to the stated iteration bound; the rules are per-iteration (no inter-iteration invariant beyond the '
-          'modelled locals is assumed).'),
-    technique='path-sensitive abstract interpretation: definite-assignment + exception-escape (sink table) + value-kind lint at truth tests')
+    text=('(a) Hunk geometry, totals, consumed lines and error positions: the parser is abstractly executed with concrete hunk '
+          'headers chosen by the harness and *abstract line contents*, so each path is one sequence of line classes (-, +, '
+          'space, marker, other, @@-other); for every class sequence up to the bound (7 header shapes, up to 3 (thorough: 4) '
+          'body lines, second hunks, garbage before/between/after, both ignore_garbage values) the result or the '
+          'MalformedHunkError line is compared with a reference semantics written from the property statement. (b) On fully '
+          'abstract lists: definite assignment (incl. the empty list), escape set {MalformedHunkError}, error arguments, '
+          'marker branch counter-free, None-sentinel truthiness lint, processed-line count.'),
+    note=('Bounded-exhaustive over line classes, exact for the listed header shapes; generalisation to longer hunks rests on '
+          'the per-line updates being the same code in every iteration (not machine-checked). The reference semantics in '
+          'sa/props/c14geo.py is the oracle and is trusted.'),
+    technique='abstract interpretation with concrete hunk headers / abstract line contents compared against a reference semantics; definite-assignment and exception-escape analysis')
+
 
 CLAIMED['C17'] = dict(
     category='other',
